@@ -75,6 +75,27 @@ def modname(prog, mod):
     return prog["pkg"] if mod == INIT else "%s.%s" % (prog["pkg"], mod)
 
 
+# names that are also names of builtins (none of them is used by the generated text itself), and paddings that make the
+# qualified name of a function longer than 140 / 160 / 200 characters (file names may have 255)
+BUILTIN_NAMES = ["filter", "format", "input", "vars", "oct", "bin", "ascii", "hash", "id", "pow", "divmod", "license"]
+LONG_PADS = [125, 150, 190]
+
+
+def rename_defs(prog, mapping):
+    """the same program with some definitions renamed (every reference follows); mapping: old name -> new name"""
+    def w(o):
+        if isinstance(o, dict):
+            return {k: w(v) for k, v in o.items()}
+        if isinstance(o, list):
+            return [w(v) for v in o]
+        if isinstance(o, str) and o in mapping:
+            return mapping[o]
+        return o
+    out = w(prog)
+    out["renamed"] = dict(prog.get("renamed") or {}, **{v: k for k, v in mapping.items()})
+    return out
+
+
 def _ref(prog, cur_mod, name):
     d = find(prog, name)
     if d["mod"] == cur_mod:
@@ -489,7 +510,7 @@ def apply_edit(prog, edit, tag):
 # ------------------------------------------------------------------------------------------
 
 def program_strategy(max_fns=6, two_modules=True, allow_hidden=True, allow_explicit=True, allow_cluster=True,
-                     str_sets=True, allow_hidden_plain=False, allow_alias=True, explicit_f0=False, value_heavy=False, allow_fdef=False, allow_dictset=False, allow_init=False, allow_query=False, allow_tuplist=False, allow_declared=False, helper_heavy=False, allow_mut=False, allow_twins=False, allow_keyclash=False):
+                     str_sets=True, allow_hidden_plain=False, allow_alias=True, explicit_f0=False, value_heavy=False, allow_fdef=False, allow_dictset=False, allow_init=False, allow_query=False, allow_tuplist=False, allow_declared=False, helper_heavy=False, allow_mut=False, allow_twins=False, allow_keyclash=False, allow_rename=False):
     from hypothesis import strategies as st
 
     small = st.integers(0, 9)
@@ -671,7 +692,20 @@ def program_strategy(max_fns=6, two_modules=True, allow_hidden=True, allow_expli
         order = draw(st.permutations(range(len(defs))))
         ordered = [defs[i] for i in order]
         ordered.sort(key=lambda d: 1 if d["k"] in ("alias", "wrapper") else 0)
-        return {"pkg": "vpk", "modules": modules, "defs": fix_order(None, ordered)}
+        out = {"pkg": "vpk", "modules": modules, "defs": fix_order(None, ordered)}
+        if allow_rename and draw(st.integers(0, 2)) == 0:
+            # unusual but legal names: a variable / helper / memoized callee called like a builtin, or with a very long name
+            cands = [d["name"] for d in out["defs"] if d["k"] in ("var", "fn") and d["name"] != "f0" and not d.get("rname")
+                     and not d.get("lam") and d["name"] not in ("h9", "h9tw")]
+            mapping = {}
+            if cands:
+                picked = draw(st.lists(st.sampled_from(cands), min_size=1, max_size=2, unique=True))
+                new = draw(st.lists(st.sampled_from(BUILTIN_NAMES + ["L%d" % n for n in LONG_PADS]), min_size=len(picked), max_size=len(picked), unique=True))
+                for old, nn in zip(picked, new):
+                    mapping[old] = (old + "_" + "q" * int(nn[1:])) if nn[0] == "L" else nn
+                # (aliases / wrappers are named after their target at generation time only; they keep their names)
+                out = rename_defs(out, mapping)
+        return out
 
     return prog()
 
